@@ -76,6 +76,9 @@ def instances(tier):
         for k in range(nchunks):
             out.append(dict(id="trees-%s-p%d-%d/%d" % (cls.__name__, pmax, k + 1, nchunks), kind="split" if symp else "trees", cls=cls.__name__,
                             pmax=pmax, chunk=k, nchunks=nchunks, budget=b))
+        if symp:
+            out.append(dict(id="trees-2d-layout-%s-p%d" % (cls.__name__, min(p, 3 if quick else 4)), kind="split", cls=cls.__name__,
+                            pmax=min(p, 3 if quick else 4), chunk=0, nchunks=1, layout2d=True, budget=b))
         if not symp:
             out.append(dict(id="aux-%s" % cls.__name__, kind="aux", cls=cls.__name__, pmax=min(p, 10 if not quick else 7), budget=b))
             out.append(dict(id="warm-%s" % cls.__name__, kind="warm", cls=cls.__name__, pmax=min(p, 3 if quick else 5), budget=b))
@@ -159,7 +162,17 @@ def picard_root_stub(c, sweeps):
 
 def _mk(c, cls, dim):
     dt = np.dtype(object) if c.symbolic else np.dtype(np.float64)
-    return cls((dim,), dtype=dt, rtol=1e-6, atol=1e-6)
+    return cls(dim if isinstance(dim, tuple) else (dim,), dtype=dt, rtol=1e-6, atol=1e-6)
+
+
+class Reshaped:
+    """the same equation with the state stored as an array of another shape (e.g. [positions; momenta] as a (2, n) matrix)"""
+
+    def __init__(self, rhs, shape):
+        self.rhs, self.shape = rhs, tuple(shape)
+
+    def __call__(self, t, y, **kw):
+        return self.rhs(t, y.reshape(-1), **kw).reshape(self.shape)
 
 
 def _step(c, cls, rhs, dim, t, h, sweeps, absolute=False, warm=False):
@@ -173,7 +186,11 @@ def _step(c, cls, rhs, dim, t, h, sweeps, absolute=False, warm=False):
         if hasattr(integ, "tableau_final"):
             integ.tableau_final = abs(integ.tableau_final)
     integ.update_timestep = ctrl_stub(c, integ, fixed=1.0)
-    y0 = c.array([0] * dim) if c.symbolic else np.zeros(dim)
+    if isinstance(dim, tuple):
+        n_ = int(np.prod(dim))
+        y0 = (c.array([0] * n_) if c.symbolic else np.zeros(n_)).reshape(dim)
+    else:
+        y0 = c.array([0] * dim) if c.symbolic else np.zeros(dim)
     with patched(opt, "nonlinear_roots", picard_root_stub(c, sweeps)), patched(it, "broyden_update_jac", lambda B, dx, df, Binv=None: B):
         if warm:
             # the same integrator object has just taken a step of a DIFFERENT equation (parameter s = 0) that ends exactly where
@@ -271,7 +288,13 @@ def scenario(c, inst):
                 dim = 2 * half
                 rhs = TreeRhs(c, children, index=index, dim=dim)
                 root = index[0]
+            if inst.get("layout2d") and col is not None:
+                # the state stored as a (2, n) matrix [drift variables; kick variables]: same equation, same default partition
+                rhs = Reshaped(rhs, (2, dim // 2))
+                dim = (2, dim // 2)
             st, r = run(_step, c, cls, rhs, dim, t, h, n + 2)
+            if st == "ok" and isinstance(dim, tuple):
+                r = (r[0], r[1].reshape(-1))
             name = "c01.tree_condition.%s" % inst["cls"]
             if st != "ok":
                 c.check("c01.step_runs", False, info=dict(tree=T.tree_str(tr), err=repr(r)))
@@ -284,7 +307,7 @@ def scenario(c, inst):
                 # high-order weights are tiny sums of O(1) terms with cancellation: judge the defect on the backward-error scale Phi_abs
                 st2, r2 = run(_step, c, cls, rhs, dim, t, h, n + 2, True)
                 if st2 == "ok":
-                    got_abs = r2[1][root]
+                    got_abs = r2[1].reshape(-1)[root]
             regions = None
             if kind == "split" and inst["cls"] in ("ABAs5o6HSolver", "BABs9o7HSolver") and n >= 5:
                 # KNOWN finding: declared order 6/7 holds only for near-harmonic problems; generic order is 4
